@@ -37,7 +37,7 @@ def wide_scenario(rng):
         if kind == "headeronly":
             sec = scen.headeronly_section(rng, p, rng.choice(["add", "delete", "rename", "mode"]))
         elif kind == "symlink":
-            sec = symlink_section(p, rng.choice(["tgt", "x", "f"]))
+            sec = symlink_section(p, rng.choice(["tgt", "x", "lnk/t"]))
         else:
             fmt = "git" if git else rng.choice(["unified", "unified", "context", "normal"])
             if fmt == "normal" and (" " in p or kind in ("add", "delete")):
